@@ -14,6 +14,7 @@ import (
 	"github.com/buildbuildio/pebbles/introspection"
 	"github.com/buildbuildio/pebbles/queryer"
 	"github.com/buildbuildio/pebbles/requests"
+	"github.com/vektah/gqlparser/v2"
 	"github.com/vektah/gqlparser/v2/ast"
 )
 
@@ -245,7 +246,7 @@ func c16Jobs(tier string) []string {
 	}
 	var jobs []string
 	for _, w := range EnumWorlds([]string{"Wmin", "W0"}, dw, 0) {
-		jobs = append(jobs, fmt.Sprintf("%s|e0p|std", w.Name()))
+		jobs = append(jobs, fmt.Sprintf("%s|e0p|std", w.Name()), fmt.Sprintf("%s|s0p|std", w.Name()))
 	}
 	for _, w := range []string{"W0", "W0+ts-defaults", "W0+ts-deprecated", "W0+ts-directive", "W0+ts-wrappers", "W0+ts-descriptions", "W0+union-list", "W0+interface-value", "W0+root-input", "W0+root-enum", "Wmin", "W0+ts-interface-chain"} {
 		jobs = append(jobs, fmt.Sprintf("%s|e0p|treeK%d", w, k))
@@ -282,7 +283,7 @@ func init() {
 		Rule: "case = (merged schema of a world with <=1 (thorough 2) atoms, introspection operation); operations: the standard introspection query (the gateway's own text and graphql-js's), every selection tree with <=K fields (K=3 quick, 4 thorough; " +
 			"ofType depth<=3, includeDeprecated omitted/true) under __schema and under __type(name:) for every type name and an unknown name, by literal and by variable, with aliases/fragments decorations, and introspection mixed with a data field; " +
 			"oracle: answer == gqlref.Introspect over the merged schema captured from the real merger (lists compared as sets), __type(name:X) == the types entry named X, and both a standard client (FromIntrospection) and another gateway's " +
-			"introspector rebuild a schemacanon-equal schema from the standard query's answer; non-trivial = every case",
+			"introspector rebuild a schemacanon-equal schema from the standard query's answer, and every operation with <=2 fields (plus node lookups) is accepted by the gateway's validation iff it is valid against the schema rebuilt from the gateway's own answer; non-trivial = every case",
 		Assumptions: []string{"gqlref.IntrospectResolver is the specification-shaped expected answer (2018 shape of gqlparser's prelude)", "list order is not compared"},
 		Jobs:        c16Jobs,
 		Budget: func(tier string) time.Duration {
@@ -399,6 +400,21 @@ func init() {
 						} else {
 							for _, d := range schemacanon.Diff(want, schemacanon.Canon(sc, canonFull)) {
 								set["standard-client rebuild "+d.Sig()] = true
+							}
+							// the reported schema is the enforced one: an operation is accepted by the gateway's
+							// validation iff it is valid against what the gateway reports about itself
+							probes := GenOps(f.Merged, f.W, 2)
+							probes = append(probes, Case{Q: `{ node(id: "N1_1") { id } }`}, Case{Q: `{ node(id: "N1_1") { ... on N1 { id } } }`}, Case{Q: "{ __schema { queryType { name } } }"}, Case{Q: "{ __typename }"})
+							for _, pc := range probes {
+								_, e1 := gqlparser.LoadQuery(f.GWSchema, pc.Q)
+								_, e2 := gqlparser.LoadQuery(sc, pc.Q)
+								if (e1 == nil) != (e2 == nil) {
+									if e1 == nil {
+										set["validation accepts an operation that is invalid against the schema the gateway reports: "+Template(e2[0].Message)] = true
+									} else {
+										set["validation rejects an operation that is valid against the schema the gateway reports: "+Template(e1[0].Message)] = true
+									}
+								}
 							}
 						}
 						gq := &gwQueryer{f: f}
